@@ -122,6 +122,12 @@ func (p *Prog) exprKey(v ssa.Value, d int) string {
 		if x.Op != token.MUL {
 			return x.Op.String() + p.exprKey(x.X, d+1)
 		}
+		// element of a slice that is not written in this function: stable
+		if ia, ok := x.X.(*ssa.IndexAddr); ok {
+			if _, isAlloc := ia.X.(*ssa.Alloc); !isAlloc && !elementStored(ia) {
+				return "idx(" + p.exprKey(ia.X, d+1) + "," + p.exprKey(ia.Index, d+1) + ")"
+			}
+		}
 		// load: resolve through the single reaching definition when there is one
 		base, path := addrBase(x.X)
 		switch b := base.(type) {
@@ -247,4 +253,22 @@ func addSubOf(v ssa.Value) (op string, recv, x ssa.Value, ok bool) {
 func isIntLike(t types.Type) bool {
 	s := t.String()
 	return strings.HasSuffix(s, "math.Int") || strings.HasSuffix(s, "types.Coin") || strings.HasSuffix(s, "math.LegacyDec")
+}
+
+// elementStored: some element of the same slice value is stored to in the function.
+func elementStored(ia *ssa.IndexAddr) bool {
+	refs := ia.X.Referrers()
+	if refs == nil {
+		return false
+	}
+	for _, ref := range *refs {
+		if other, ok := ref.(*ssa.IndexAddr); ok && other.Referrers() != nil {
+			for _, r2 := range *other.Referrers() {
+				if st, ok := r2.(*ssa.Store); ok && st.Addr == other {
+					return true
+				}
+			}
+		}
+	}
+	return false
 }
